@@ -21,11 +21,11 @@ func init() {
 	})
 	register(Harness{
 		Prop: "C09", Pkg: "storage/file", Func: "VerifC09FileRace", InitPkgs: []string{"storage"},
-		Quick:      [][]int64{{0, 2}, {1, 2}, {2, 1}, {3, 2}, {4, 2}, {5, 2}},
-		Thorough:   [][]int64{{0, 3}, {1, 3}, {2, 3}, {3, 3}, {4, 3}, {5, 3}},
+		Quick:      [][]int64{{0, 2}, {1, 2}, {2, 1}, {3, 2}, {4, 2}, {5, 2}, {6, 2}},
+		Thorough:   [][]int64{{0, 3}, {1, 3}, {2, 3}, {3, 3}, {4, 3}, {5, 3}, {6, 3}},
 		Unwind:     40,
 		LoopBounds: fileLoopBounds,
-		Desc:       "two operations on the same file-store mailbox run concurrently over the file-system model (mark seen / remove / deliver / purge / retention scan against a delivery or a purge; a purge against the first delivery to a sibling mailbox in the same level-1 directory and lock bucket): both return, no panic, no deadlock, and the mailbox afterwards is what a serial order gives (no delivered message lost, no removed message back, seen flag kept, ids distinct)",
+		Desc:       "two operations on the same file-store mailbox run concurrently over the file-system model (mark seen / remove / deliver / purge / retention scan against a delivery or a purge; a purge against the first delivery to a sibling mailbox in the same level-1 directory and lock bucket; two mark-seen calls on two messages of one mailbox): both return, no panic, no deadlock, and the mailbox afterwards is what a serial order gives (no delivered message lost, no removed message back, seen flag kept, ids distinct)",
 		Bounds:     "params (scenario, pre-emption budget); schedules = run-to-block plus up to `pre` pre-emptions before mutex / RWMutex acquisitions and unbuffered channel sends; 2 client goroutines + id generator",
 		Assumes:    []string{"threads are atomic between visible operations", "file-system model of C10", "native replay by repetition (100 rounds on a real directory)"},
 	})
